@@ -642,6 +642,56 @@ func (f *Fn) ResultFormula(resultIdx int, atoms map[string]bool) (Formula, error
 	return disj, nil
 }
 
+// LoopNoBreak checks that the loop enclosing site s is never left by a `break` (a path from
+// the loop body to the statement after the loop that does not pass the loop head).  Returns
+// and continues are not its business.
+func (f *Fn) LoopNoBreak(r *Rule, s Site, label string) bool {
+	key := f.Name + ": " + label
+	r.AddSites(1)
+	var loop ast.Node
+	for p := f.parent[s.Node]; p != nil; p = f.parent[p] {
+		switch p.(type) {
+		case *ast.ForStmt, *ast.RangeStmt:
+			loop = p
+		}
+		if loop != nil {
+			break
+		}
+	}
+	if loop == nil {
+		r.Fail(key, f.P.Pos(s.Node.Pos()), "the site is not inside a loop any more")
+		return false
+	}
+	body := -1
+	heads := map[int]bool{}
+	var done []int
+	for b, id := range f.G.blockE {
+		if b.Stmt != loop {
+			continue
+		}
+		switch b.Kind {
+		case cfg.KindForBody, cfg.KindRangeBody:
+			body = id
+		case cfg.KindForLoop, cfg.KindRangeLoop, cfg.KindForPost:
+			heads[id] = true
+		case cfg.KindForDone, cfg.KindRangeDone:
+			done = append(done, id)
+		}
+	}
+	if body < 0 {
+		r.Fail(key, f.P.Pos(loop.Pos()), "loop body not found in the control-flow graph")
+		return false
+	}
+	ok := true
+	for _, d := range done {
+		if p := f.FPath([]int{body}, d, heads, nil); p != nil {
+			r.Fail(key, f.P.Pos(loop.Pos()), "the loop is left early by a break; path (lines): %s", f.DescribePath(p))
+			ok = false
+		}
+	}
+	return ok
+}
+
 // PathFormula computes the condition under which vertex `to` is reached from vertex `from`
 // as a formula over normalised atoms: the disjunction, over the acyclic paths from→to, of the
 // conjunction of the branch conditions taken.  A single `if a && b { … }` and a chain of early
